@@ -112,7 +112,8 @@ def append_attributes(*args: Tuple[str, Any]) -> Dict:
 
     for key, value in args:
         if key in result:
-            result[key] += " " + value
+            # NOTE: The values do not have to be strings, e.g. `{% html_attrs attrs data-count=count %}`
+            result[key] = str(result[key]) + " " + str(value)
         else:
             result[key] = value
 
